@@ -54,8 +54,12 @@ func pkgSource(name string, variant int) string {
 	return b.String()
 }
 
-var dirs = []string{"", "mid", "mid/leaf"}
-var pkgNames = []string{"r", "m", "l"}
+// root ⊃ mid ⊃ leaf, and "side" is a sibling of mid (its configuration chain is root, side)
+var dirs = []string{"", "mid", "mid/leaf", "side"}
+var pkgNames = []string{"r", "m", "l", "s"}
+
+// chain lists the directory levels whose staticcheck.conf apply to a level, outermost first.
+var chain = [][]int{{0}, {0, 1}, {0, 1, 2}, {0, 3}}
 
 // ---- reference model of the check algebra (from the documentation / property text)
 
@@ -95,7 +99,7 @@ func splice(parent, list []string) []string {
 }
 
 // resolve computes the final list for a package in directory level lvl.
-func (m *model) resolve(confs [3][]string, has [3]bool, lvl int, flag []string) []string {
+func (m *model) resolve(confs [4][]string, has [4]bool, lvl int, flag []string) []string {
 	cur := []string{"all"}
 	var nd []string
 	for n := range m.nonDefault {
@@ -103,7 +107,7 @@ func (m *model) resolve(confs [3][]string, has [3]bool, lvl int, flag []string) 
 	}
 	sort.Strings(nd)
 	cur = append(cur, nd...)
-	for l := 0; l <= lvl; l++ {
+	for _, l := range chain[lvl] {
 		if has[l] {
 			cur = splice(cur, confs[l])
 		}
@@ -320,8 +324,8 @@ func tomlList(l []string) string {
 }
 
 type caseT struct {
-	confs   [3][]string
-	has     [3]bool
+	confs   [4][]string
+	has     [4]bool
 	flag    []string // nil = no -checks flag
 	fail    []string // nil = no -fail flag
 	variant int
@@ -348,7 +352,7 @@ func Run(r *vf.Run) {
 			return u, nil
 		}
 		root := filepath.Join(r.Scratch(), fmt.Sprintf("universe%d", variant))
-		writeWS(root, variant, [3][]string{}, [3]bool{})
+		writeWS(root, variant, [4][]string{}, [4]bool{})
 		res := lintrun.Cmd{Bin: bin, Dir: root, Env: []string{"STATICCHECK_CACHE=" + filepath.Join(r.Scratch(), "cache")}, Args: []string{"-checks", "all", "-show-ignored", "-f", "json", "./..."}}.Run()
 		ps, err := parseJSON(root, res)
 		if err != nil || res.Killed || res.Exit > 1 {
@@ -382,10 +386,14 @@ func Run(r *vf.Run) {
 				// favour sources whose only problems are ignored ones / directive errors
 				c.variant = []int{9, 9, 11, 13, 8, 10}[rng.IntN(6)]
 			}
-			for l := 0; l < 3; l++ {
+			for l := 0; l < 4; l++ {
 				if rng.IntN(3) != 0 {
 					c.has[l] = true
 					c.confs[l] = genList(rng, true)
+					if rng.IntN(3) == 0 {
+						// the common idiom: everything inherited, one or two checks switched off or on
+						c.confs[l] = append([]string{"inherit"}, atoms[rng.IntN(len(atoms))])
+					}
 				}
 			}
 			if rng.IntN(3) != 0 {
@@ -418,7 +426,7 @@ func Run(r *vf.Run) {
 			}
 			expected := map[string]prob{}
 			selectedTotal := 0
-			for lvl := 0; lvl < 3; lvl++ {
+			for lvl := 0; lvl < 4; lvl++ {
 				sel := mo.selected(mo.resolve(c.confs, c.has, lvl, flag))
 				for _, v := range sel {
 					if v {
@@ -486,7 +494,7 @@ func Run(r *vf.Run) {
 			}
 			desc := func() map[string]any {
 				d := map[string]any{"args": args0, "source_variant": c.variant}
-				for l := 0; l < 3; l++ {
+				for l := 0; l < 4; l++ {
 					if c.has[l] {
 						d["conf:"+filepath.Join(dirs[l], "staticcheck.conf")] = tomlList(c.confs[l])
 					}
@@ -583,11 +591,12 @@ func Run(r *vf.Run) {
 	r.Set("non_default_checks", len(mo.nonDefault))
 	r.Assume("the universe of problems of a source variant is what one `-checks all -show-ignored` run without configuration files reports; configuration files in this workload only set `checks`")
 	r.Finish(evals, nontriv, r.Pick(20, 500),
-		"each configuration = tree of staticcheck.conf files at 3 nested directory levels (absent / empty list / inherit anywhere / globs / negations / unknown names / mixed case) x -checks x -fail x -show-ignored x source variant (ignored problem, useless directive); run in 4 output formats; problems, exit status and cross-format agreement compared with the reference model. evaluations = lint runs compared; non-trivial = configurations whose expected visible problem set is a proper non-empty subset of the universe")
+		"each configuration = tree of staticcheck.conf files at 3 nested directory levels and one sibling directory (absent / empty list / inherit anywhere / globs / negations / unknown names / mixed case) x -checks x -fail x -show-ignored x source variant (ignored problem, useless directive); run in 4 output formats; problems, exit status and cross-format agreement compared with the reference model. evaluations = lint runs compared; non-trivial = configurations whose expected visible problem set is a proper non-empty subset of the universe")
 }
 
-func writeWS(root string, variant int, confs [3][]string, has [3]bool) {
+func writeWS(root string, variant int, confs [4][]string, has [4]bool) {
 	os.MkdirAll(filepath.Join(root, "mid", "leaf"), 0o755)
+	os.MkdirAll(filepath.Join(root, "side"), 0o755)
 	os.WriteFile(filepath.Join(root, "go.mod"), []byte("module example.com/confws\n\ngo 1.22\n"), 0o644)
 	for l, d := range dirs {
 		os.WriteFile(filepath.Join(root, d, pkgNames[l]+".go"), []byte(pkgSource(pkgNames[l], variant)), 0o644)
